@@ -17,6 +17,11 @@ claim("C16",
       "Bounds: sets of <= 2 members (3 thorough), two operand keys, one command per step. See evidence assumptions.",
       "DESIGN.md C14-C17")
 
+claim("C17",
+      "ZADD (all NX/XX/GT/LT/CH combinations), ZINCRBY, ZCARD, ZSCORE, ZMSCORE, ZREM, ZDIFF and ZDIFFSTORE are executed symbolically through the real dispatcher from arbitrary sorted sets (scores are symbolic IEEE doubles incl. infinities and ties) and compared with a reference scored map; ZDIFF(STORE) operands must stay untouched and the destination must not share the stored object. The remaining sorted-set commands are not yet covered (listed in the evidence as outside the claim).",
+      "Bounds: sorted sets of <= 2 members (3 thorough), integer score arguments in -4..4, one command per step. Known finding: ZADD without CH counts changed members (pinned by the repository's tests).",
+      "DESIGN.md C14-C17")
+
 # every property without a claim is listed as not applicable (yet) with its reason
 NA_REASONS = {}
 for n in range(1, 21):
